@@ -25,7 +25,7 @@ def showRes : Res → String
   | .bytes n => "b" ++ toString n
   | .sockClosed => "C"
   | .timeout => "T"
-  | .doneAll h => "D" ++ toString h
+  | .doneAll h _ => "D" ++ toString h
 
 def b01 (b : Bool) : String := if b then "1" else "0"
 
